@@ -84,7 +84,7 @@ func era(unixLocal int64) string {
 
 // C20 — scalar conversions exact over each type's documented range.
 func C20(c *vk.Ctx) {
-	c.Rule("every Date (65536) and every Date32 day 1900-01-01..2299-12-31 x 4 times of day x 29 fixed zones; DateTime seconds (quick: all multiples of 3600 +-1 and range ends; thorough: all 2^32); DateTime64 at precisions 0..9 over a lattice of year starts, range ends, epoch and UnixNano limits +-1 tick with aligned and unaligned sub-second parts; wide-integer helpers on a boundary lattice checked against math/big two's complement; IPv4 (quick: 6^4 byte lattice + stride 65537; thorough: all 2^32), IPv6 lattice; every one of these instants also enters the matching column through Append, AppendArr, Array.Append, Nullable.Append and Nullable.AppendArr (dates: all 4 times of day in one zone per day, cycling through the zones) and must store what the scalar conversion gives and read back what the scalar back-conversion gives; Interval.Add for every scale x {0,+-1,+-13} x dates with day<=28. A case is non-trivial when it is a distinct (function, input) pair; all are distinct by construction.")
+	c.Rule("every Date (65536) and every Date32 day 1900-01-01..2299-12-31 x 4 times of day x 29 fixed zones; DateTime seconds (quick: all multiples of 3600 +-1 and range ends; thorough: all 2^32); DateTime64 at precisions 0..9 over a lattice of year starts, range ends, epoch and UnixNano limits +-1 tick with aligned and unaligned sub-second parts; wide-integer helpers on a boundary lattice checked against math/big two's complement; IPv4 (quick: 6^4 byte lattice + stride 65537; thorough: all 2^32), IPv6 lattice; every one of these instants also enters the matching column through Append, AppendArr, Array.Append, Nullable.Append and Nullable.AppendArr (dates: all 4 times of day in one zone per day, cycling through the zones) and must store what the scalar conversion gives and read back what the scalar back-conversion gives; Interval.Add for every scale x {0,+-1,+-13} x dates with day<=28, x values that span the whole documented range and sit around the 292-year limit of time.Duration, and around the daylight-saving transitions of Europe/Berlin (calendar units keep the wall clock). A case is non-trivial when it is a distinct (function, input) pair; all are distinct by construction.")
 	c20Dates(c)
 	c20DateTime(c)
 	c20DateTime64(c)
@@ -708,6 +708,105 @@ func c20Interval(c *vk.Ctx) {
 					}
 					if got.Unix() != want {
 						c.Violation(fmt.Sprintf("C20/Interval.Add/%v", s.s), id, fmt.Sprintf("%v + %d %v = %v, want %v", t, v, s.s, got, time.Unix(want, 0).UTC()), nil)
+					}
+					c.Eval("Interval", 1)
+					c.DistinctN(1)
+				}
+			}
+		}
+	}
+	// long spans: values that carry a time from one end of the documented range of Date32 /
+	// DateTime64 (1900-01-01 .. 2299-12-31, 146096 days) to the other, and the values around
+	// the point where a span no longer fits time.Duration (about 292 years)
+	lo, hi := daysFromCivil(1900, 1, 1), daysFromCivil(2299, 12, 31)
+	span := hi - lo
+	long := map[proto.IntervalScale][]int64{
+		proto.IntervalSecond:  {math.MaxInt32, math.MaxInt32 + 1, 9223372036, 9223372037, span * 86400},
+		proto.IntervalMinute:  {153722867, 153722868, span * 1440},
+		proto.IntervalHour:    {2562047, 2562048, span * 24},
+		proto.IntervalDay:     {36525, 106751, 106752, 106753, span},
+		proto.IntervalWeek:    {5218, 15250, 15251, 15252, span / 7},
+		proto.IntervalMonth:   {1200, 3504, 4799},
+		proto.IntervalQuarter: {400, 1599},
+		proto.IntervalYear:    {100, 292, 293, 399},
+	}
+	for _, s := range scales {
+		for _, v := range long[s.s] {
+			for _, dir := range []int64{1, -1} {
+				start := lo*86400 + 45296
+				if dir < 0 {
+					start = hi*86400 + 45296
+				}
+				id := fmt.Sprintf("Interval/%v/v=%d/long", s.s, dir*v)
+				if !c.Next(id) && c.Only != "" {
+					continue
+				}
+				t := time.Unix(start, 0).UTC()
+				got := proto.Interval{Scale: s.s, Value: dir * v}.Add(t)
+				var want int64
+				switch {
+				case s.secs != 0:
+					want = start + dir*v*s.secs
+				case s.days != 0:
+					want = start + dir*v*s.days*86400
+				default:
+					y0, m0, d0 := civilFromDays(floorDiv(start, 86400))
+					mi := y0*12 + (m0 - 1) + dir*v*s.months
+					y, m := floorDiv(mi, 12), mi-floorDiv(mi, 12)*12+1
+					want = daysFromCivil(y, m, d0)*86400 + 45296
+					if s.s == proto.IntervalQuarter {
+						continue // known finding (a quarter is added as four months); the short values report it
+					}
+				}
+				if got.Unix() != want {
+					c.Violation(fmt.Sprintf("C20/Interval.Add/%v/long-span", s.s), id, fmt.Sprintf("%v + %d %v = %v, want %v", t, dir*v, s.s, got.UTC(), time.Unix(want, 0).UTC()), nil)
+				}
+				c.Eval("Interval", 1)
+				c.DistinctN(1)
+			}
+		}
+	}
+	// zones with daylight saving: days, weeks, months and years are calendar units (the wall
+	// clock is kept, the elapsed time differs by the offset change); seconds, minutes and
+	// hours are elapsed time
+	if loc, err := time.LoadLocation("Europe/Berlin"); err != nil {
+		c.Note("Europe/Berlin not loadable (%v): daylight-saving cases of Interval.Add skipped", err)
+	} else {
+		for _, dt := range []ymd{{2021, 3, 27}, {2021, 3, 28}, {2021, 10, 30}, {2021, 10, 31}, {2021, 6, 15}} {
+			for _, s := range scales {
+				for _, v := range []int64{1, -1, 2, 7} {
+					if s.s == proto.IntervalQuarter {
+						continue
+					}
+					id := fmt.Sprintf("Interval/%v/v=%d/%04d-%02d-%02d/Europe-Berlin", s.s, v, dt.y, dt.m, dt.d)
+					if !c.Next(id) && c.Only != "" {
+						continue
+					}
+					t := time.Date(int(dt.y), time.Month(dt.m), int(dt.d), 12, 34, 56, 0, loc)
+					got := proto.Interval{Scale: s.s, Value: v}.Add(t).In(loc)
+					ok := true
+					var wantS string
+					switch {
+					case s.secs != 0:
+						ok = got.Unix() == t.Unix()+v*s.secs
+						wantS = fmt.Sprintf("%d s of elapsed time later", v*s.secs)
+					default:
+						var y, m, d int64
+						if s.days != 0 {
+							y, m, d = civilFromDays(daysFromCivil(dt.y, dt.m, dt.d) + v*s.days)
+						} else {
+							mi := dt.y*12 + (dt.m - 1) + v*s.months
+							y, m, d = floorDiv(mi, 12), mi-floorDiv(mi, 12)*12+1, dt.d
+							if d > 28 {
+								continue // month lengths: outside the oracle's calendar model
+							}
+						}
+						gy, gm, gd := got.Date()
+						ok = int64(gy) == y && int64(gm) == m && int64(gd) == d && got.Hour() == 12 && got.Minute() == 34 && got.Second() == 56
+						wantS = fmt.Sprintf("%04d-%02d-%02d 12:34:56 local", y, m, d)
+					}
+					if !ok {
+						c.Violation(fmt.Sprintf("C20/Interval.Add/%v/daylight-saving", s.s), id, fmt.Sprintf("%v + %d %v = %v, want %s", t, v, s.s, got, wantS), nil)
 					}
 					c.Eval("Interval", 1)
 					c.DistinctN(1)
